@@ -1,4 +1,6 @@
 #!/bin/bash
+# exclusive lock on /repo for the whole run (checks started by others wait)
+if [ "${VERIF_LOCK_HELD:-0}" != "1" ]; then exec env VERIF_LOCK_HELD=1 flock /tmp/verif_repo.lock "$0" "$@"; fi
 # usage: tools_seed.sh <worktree> <k> "<check ids>"   e.g. tools_seed.sh /tmp/seed_C01 1 "C01 C03"
 # Verifies a seeded mutation (baseline tests pass, demo fails with / passes without) in its
 # scratch worktree, then runs the given checks against it in /repo (applied, then reverted).
